@@ -22,13 +22,14 @@ Lemma params_numeric body p : params_of body = Some p -> numeric body = true.
 Proof. intros H. exact (params_of_chars body p H). Qed.
 
 Lemma items_numeric l : forallb all_digits l = true ->
-  map norm_item (map (fun s => IStr (if is_nil (strip_ws s) then [CH_0] else strip_ws s)) l)
+  map norm_item_pgs (map (fun s => IStr (if is_nil (strip_ws s) then [CH_0] else strip_ws s)) l)
   = itemsN (map num_of l).
 Proof.
   intros H. unfold itemsN. rewrite !map_map. apply map_ext_in. intros d Hd.
   assert (Hdig : all_digits d = true) by (rewrite forallb_forall in H; now apply H).
   unfold all_digits in Hdig. rewrite (strip_ws_digits d Hdig).
   destruct d as [|c r]; [reflexivity|]. cbn [is_nil].
+  unfold norm_item_pgs. rewrite (strip_ws_digits (c :: r) Hdig). rewrite Hdig. cbn [is_nil negb andb].
   unfold norm_item. now rewrite (parse_int_digits (c :: r) Hdig) by discriminate.
 Qed.
 
@@ -206,7 +207,7 @@ Qed.
 Lemma pgs_str_ok body : exists texts, pgs_str body false = OK texts.
 Proof.
   unfold pgs_str. destruct body as [|c r]; [eexists; reflexivity|].
-  generalize (map norm_item (items_of_str (c :: r))). intros items.
+  generalize (map norm_item_pgs (items_of_str (c :: r))). intros items.
   generalize 0 at 1. generalize (@nil Z).
   induction items as [|it items IH]; intros cur left.
   - eexists. reflexivity.
@@ -1257,14 +1258,15 @@ Example non_numeric_differs :
   /\ style_of (map stxt (active_at (tbl (fst (parse wa 0))) 0)) UNDERLINE = Some [4%N].
 Proof. vm_compute. repeat split. Qed.
 
-(* ... int() is lenient: " +3" is read as 3 (italics) *)
+(* ... int() was lenient: " +3" used to be read as 3 (italics); repaired (known_findings F33: parameters are decimal
+   digits only), the item is now dropped like any other non-number - bold, from the numeric item, is still kept *)
 Definition wb := esc "1; +3m" ++ s_ "a".
-Example lenient_int_differs :
+Example lenient_int_repaired :
   numeric_toks (toks wb) = false
   /\ match nth_error (fst (term_run tdefault wb)) 0 with Some (_, t) => (t BOLDNESS, t ITALICS) | None => (None, None) end
      = (None, None)
   /\ (let st := style_of (map stxt (active_at (tbl (fst (parse wb 0))) 0)) in (st BOLDNESS, st ITALICS))
-     = (Some [1%N], Some [3%N]).
+     = (Some [1%N], None).
 Proof. vm_compute. repeat split. Qed.
 
 (* only_sgr is needed: a control sequence with another final byte (or an unterminated one) is swallowed
